@@ -332,7 +332,6 @@ theorem reach_datetime {ty} : TreesGood (colC E (.datetime ty)) := by
   split at h
   · split at h <;> leaf_or_absurd h
   · split at h <;> leaf_or_absurd h
-  · leaf_or_absurd h
 
 theorem reach_literal {vals} : TreesGood (colC E (.literal vals)) := by
   intro v t h; simp only [colC] at h
